@@ -65,7 +65,7 @@ def array_len(t):
     """length of a list-valued canonical term, or None"""
     if t[0] == 'array':
         return t[1]
-    if t[0] == 'accum' and all(op in ('setidx', 'addidx', 'subidx') for op, _, _, _ in t[2]):
+    if t[0] == 'accum' and all(op in ('setidx', 'addidx', 'subidx', 'appendidx', 'extendidx') for op, _, _, _ in t[2]):
         return array_len(t[1])
     if t[0] == 'list':
         return C(len(t[1]))
@@ -303,6 +303,17 @@ def norm_chain(chain, *vals):
             rest = [(rw_b(bb, rw), rw(gg)) for bb, gg in chain[k + 1:]]
             vals = [rw(v) for v in vals]
             return tuple(out) + ((i, rw(g)),) + tuple(rest), vals
+        ge = group_elem(dom)
+        if ge is not None:
+            # for b in GROUPS[j]  ==  for the scattered elements whose key is j, in scatter order
+            ch2, key, val, j = ge
+            def rw(x, val=val):
+                return replace(x, b, val)
+            inner = list(ch2)
+            inner[-1] = (inner[-1][0], AND(inner[-1][1], CMP('Eq', key, j), rw(g)))
+            rest = [(rw_b(bb, rw), rw(gg)) for bb, gg in chain[k + 1:]]
+            vals = [rw(v) for v in vals]
+            return tuple(out) + tuple(inner) + tuple(rest), vals
         n = array_len(dom) if dom[0] in ('array', 'accum') else None
         if n is not None:
             i = BVK(('arr', b[1]), 'i', RANGE(n))
@@ -326,6 +337,16 @@ def norm_chain(chain, *vals):
             vals = [rw(v) for v in vals]
             return tuple(out) + tuple(inner) + tuple(rest), vals
         out.append((b, g))
+    return None
+
+
+def group_elem(t):
+    """GROUPS[j] with GROUPS = [[] for i in range(N)] filled by one GROUPS[key].append(val) per element of a chain
+    -> (chain, key, val, j)"""
+    if t[0] == 'idx' and t[1][0] == 'accum' and t[1][1][0] == 'array' and t[1][1][3] == ('list', ()) and len(t[1][2]) == 1 and t[1][2][0][0] == 'appendidx' \
+            and not contains(t[1], lambda x: x[0] in ('carried', 'prefix')):
+        op, key, val, ch = t[1][2][0]
+        return ch, key, val, t[2]
     return None
 
 
@@ -522,6 +543,12 @@ def step(t):
         x = t[1][2][0]                     # Counter(v for chain)[k] == number of chain elements with v == k
         ch = x[1][:-1] + ((x[1][-1][0], AND(x[1][-1][1], CMP('Eq', x[2], t[2]))),)
         return ('sum', ch, C(1))
+    if k == 'idx' and t[1][0] == 'accum' and t[1][1][0] == 'array' and t[1][1][3] in (C(''), ('fstr', ())) and len(t[1][2]) == 1 and t[1][2][0][0] == 'addidx' \
+            and is_str_valued(t[1][2][0][2]) and not contains(t[1], lambda x: x[0] in ('carried', 'prefix')):
+        # element j of a scatter of string pieces: the pieces scattered to j, concatenated in scatter order
+        op, idx, val, ch = t[1][2][0]
+        ch2 = ch[:-1] + ((ch[-1][0], AND(ch[-1][1], CMP('Eq', idx, t[2]))),)
+        return ('fstr', (('srep', ch2, val if val[0] == 'fstr' else ('fstr', (val,)), C(None)),))
     if k == 'idx' and t[1][0] == 'accum' and t[1][1][0] == 'array' and t[1][2] and all(e[0] in ('addidx', 'subidx') for e in t[1][2]) \
             and not contains(t[1], lambda x: x[0] in ('carried', 'prefix')):
         # element j of an additive scatter: the base element plus the sum of the values scattered to j
@@ -580,6 +607,10 @@ def step(t):
             n = array_len(args[0])
             if n is not None:
                 return n
+            ge = group_elem(args[0])
+            if ge is not None:
+                ch2, key, val, j = ge
+                return ('sum', ch2[:-1] + ((ch2[-1][0], AND(ch2[-1][1], CMP('Eq', key, j))),), C(1))
         if f in (S('list'), S('tuple')) and len(args) == 1 and args[0][0] in ('array', 'comp', 'accum', 'list'):
             return args[0]
         if f == S('sum') and len(args) == 1 and not kw:
@@ -755,6 +786,8 @@ def _eq(a, b, env):
         e = _eq_chain(a[1], b[1], env)
         if e is None:
             return None
+        if k == 'srep' and a[3] in (C(''), C(None)) and b[3] in (C(''), C(None)):
+            a, b = a[:3], b[:3]              # ''.join(pieces) is plain concatenation
         for x, y in zip(a[2:], b[2:]):
             e = _eq(x, y, e)
             if e is None:
